@@ -31,6 +31,11 @@ K_EMPTY_CLASS = 17
 K_SPAN_PANIC = 18
 K_ALT_FIRST = 19
 K_WIDE_ASCII_WB = 20
+K_MATH_SIGNED = 21
+
+# recorded finding 21 lives in conditions outside the Gallina dialect: its class predicate is on the rule text
+import re as _re
+MATH_SIGNED_RE = _re.compile(r'math\.(mean|deviation|monte_carlo_pi)\("[^"]*\\x[89a-fA-F][0-9a-fA-F]')
 
 
 # ------------------------------------------------------------------ printing
@@ -587,8 +592,24 @@ def gen_wide_wb(rng, name):
     return {"name": name, "kind": "regex", "node": node, "ci": False, "da": da, "mods": mods, "wwb": True}
 
 
+def gen_short_b64(rng, name):
+    """texts of 1-4 bytes with base64 / base64wide (standard or custom alphabet): the three alignments of the text
+    in a 3-byte group give encodings of different lengths, some of them empty for the shortest texts"""
+    n = rng.choice([1, 2, 2, 2, 3, 4])
+    text = rng.bytes(n, b"abAB01xy!\x00\xff")
+    a = rng.below(4)
+    alpha = None if a < 2 else bytes(rng.shuffle(list(c01.B64_STD))).hex() if a == 2 else rng.bytes(64).hex()
+    bk = rng.below(3)
+    aw = rng.below(4)
+    d = {"text": text.hex(), "ascii": aw in (1, 3), "wide": aw in (2, 3), "nocase": False, "fullword": False,
+         "xor": None, "b64": {"ascii": bk != 1, "wide": bk != 0, "alpha": alpha}}
+    return {"name": name, "kind": "text", "decl": d}
+
+
 def gen_string(rng, name):
-    k = rng.below(12)
+    k = rng.below(13)
+    if k == 12:
+        return gen_short_b64(rng, name)
     if k == 10:
         return gen_raw_fullword(rng, name)
     if k == 11:
@@ -596,7 +617,7 @@ def gen_string(rng, name):
     if k < 4:
         for _ in range(20):
             d = c01.gen_decl(rng)
-            if len(d["text"]) <= 24 and (d["b64"] is None or len(d["text"]) >= 6):
+            if len(d["text"]) <= 24:
                 break
         else:
             d = {"text": "616263", "ascii": False, "wide": False, "nocase": False, "fullword": False, "xor": None,
@@ -965,6 +986,38 @@ def gen_hash_chain(rng, mem):
     return out
 
 
+MC_GROUPS = [bytes.fromhex("ffffff000000"), bytes.fromhex("000000ffffff"), b"\xff" * 6, b"\x00" * 6,
+             bytes.fromhex("b504f3b504f3"), bytes.fromhex("b504f4b504f4"), bytes.fromhex("7fffff7fffff")]
+
+
+def add_math_boundary(rng, case):
+    """math.* over a block appended to the first input: 6-byte groups on / just inside / just outside the circle of
+    monte_carlo_pi (FF FF FF 00 00 00 is on it), all-FF, all-00; thresholds next to the values both engines must give
+    (0.2732 when every group is a hit, 1.0 when none is).  Two-way only."""
+    n0 = len(case["inputs"][0]) // 2
+    block = b"".join(rng.choice(MC_GROUPS) if rng.chance(4, 5) else rng.bytes(6) for _ in range(rng.range(1, 3)))
+    case["inputs"][0] += block.hex()
+    L = len(block)
+    f = rng.below(6)
+    if f < 3:
+        c = rng.below(3)
+        if c == 0:
+            text = "math.in_range(math.monte_carlo_pi(%d, %d), %s)" % (n0, L, rng.choice(["0.27, 0.28", "0.99, 1.01", "0.0, 0.27", "0.28, 0.99"]))
+        else:
+            text = "math.monte_carlo_pi(%d, %d) %s %s" % (n0, L, rng.choice(["<", ">=", "<=", ">"]), rng.choice(["0.27", "0.28", "0.5", "0.99", "1.0"]))
+    elif f == 3:
+        text = "math.mean(%d, %d) %s %s" % (n0, L, rng.choice(["==", "<", ">="]), rng.choice(["255.0", "0.0", "127.5", "170.0"]))
+    elif f == 4:
+        text = "math.deviation(%d, %d, %s) %s %s" % (n0, L, rng.choice(["255.0", "0.0", "127.5"]), rng.choice(["==", "<", ">="]), rng.choice(["0.0", "127.5", "85.0"]))
+    else:
+        text = "math.entropy(%d, %d) %s %s" % (n0, L, rng.choice(["==", "<", ">="]), rng.choice(["0.0", "1.0", "0.5"]))
+    case["rules"].append({"ns": case["rules"][-1]["ns"], "name": "mb", "global": False, "private": False, "strings": [],
+                          "cond": ("raw", text), "id": len(case["rules"]), "tail": False,
+                          "ord_index": sum(1 for x in case["rules"] if not x["global"])})
+    case["imports"] = sorted(set(case.get("imports", [])) | {"math"})
+    return case
+
+
 def add_percent_rule(rng, case):
     """a rule with many strings and `P% of them`, P*n a multiple of 100 more often than not, a different number of
     matching strings in each input (two-way only: libyara's test is made in binary64)"""
@@ -1034,7 +1087,8 @@ class C07(Prop):
     KF = {K_FIXED_OFFSET: "C07-fixed-offset-listing", K_START_POS: "C07-start-position", K_FULLWORD_LEN: "C07-fullword-single-length",
           K_GLOBAL_REFS: "C07-global-refs-ordinary", K_LIST_UNDEF: "C07-list-undefined-element",
           K_HIGH_BYTE_ORDER: "C07-string-order-high-bytes", K_UNDEF_QUANT: "C07-undefined-quantifier",
-          K_ALT_FIRST: "C07-alt-glue", K_WIDE_ASCII_WB: "C07-wide-ascii-boundary"}
+          K_ALT_FIRST: "C07-alt-glue", K_WIDE_ASCII_WB: "C07-wide-ascii-boundary",
+          K_MATH_SIGNED: "C07-math-string-signed-char"}
     # classes 17 (C07-empty-class, fixed 861b829) and 18 (C07-regex-span-panic, fixed c526a27) are no longer produced
     RULE = ("generated rule files of the shared dialect: 1-4 rules over 1-2 namespaces (global / private / plain, "
             "references to earlier rules and to global rules), 0-3 strings per rule drawn from the C01 text generator "
@@ -1078,6 +1132,8 @@ class C07(Prop):
                 add_probes(r.fork("probe"), c, mods)
             if r.chance(1, 12) and not any(heavy_regex(x) for rl in c["rules"] for x in rl["strings"]):
                 add_percent_rule(r.fork("pct"), c)
+            if mods and "math" in mods and r.chance(1, 6):
+                add_math_boundary(r.fork("mb"), c)
             out.append(json.loads(json.dumps(c, default=lambda b: list(b))))
         return out
 
@@ -1132,6 +1188,17 @@ class C07(Prop):
             return (True, True, 0)          # accept_yara -> accept_boreal holds vacuously
         self.stats["programs"] += 1
         ctx.count("yara_accepts")
+        if case.get("two_way_finding"):
+            # corpus witnesses of a recorded finding that lives in conditions outside the Gallina dialect: the class is
+            # a predicate on the rule text, checked here; a verdict difference is then reported as that finding
+            k = int(case["two_way_finding"])
+            in_class = k == K_MATH_SIGNED and any(MATH_SIGNED_RE.search(hr["src"]) for hr in harness_rules(case))
+            yv = [[(r["ns"], r["name"], r["matched"]) for r in s["rules"]] for s in y["scans"]]
+            bv = [sorted((r["ns"], r["name"], r["matched"]) for r in s["rules"]) for s in b.get("scans", [])]
+            same = [sorted(x) for x in yv] == bv
+            if same:
+                return (True, True, 0)
+            return (True, False, k if in_class else 0)
         if case.get("oracle_quirk"):
             # corpus witnesses of libyara behaviours that are defects or build artefacts of the oracle itself (see
             # notes/C07.md): run, counted, never compared
